@@ -390,6 +390,23 @@ class Pairing:
             root, depth = root_and_depth(ev.recv)
             return M.rootspec(fe, params, root, depth, is_init) == "fresh"
 
+        def member_fact(loop):
+            """for x in [list(] self.<container> [)]: the relation invariant (C01) gives x.<back pointer> is self when the loop is
+            entered; recorded as a fact on x (later writes to the back pointer replace it like any other fact)"""
+            if not isinstance(loop.target, ast.Name) or f.cls is None:
+                return None
+            it = loop.iter
+            while isinstance(it, ast.Call) and ((isinstance(it.func, ast.Name) and it.func.id in ("list", "tuple", "reversed", "sorted") and len(it.args) == 1)
+                                                or (isinstance(it.func, ast.Attribute) and it.func.attr == "copy" and not it.args)):
+                it = it.args[0] if isinstance(it.func, ast.Name) else it.func.value
+            if not (isinstance(it, ast.Attribute) and isinstance(it.value, ast.Name) and it.value.id == "self"):
+                return None
+            for r_ in O2_RELATIONS:
+                if r_.cfield.lstrip("_") == it.attr.lstrip("_") and (r_.ccls == f.cls.name or r_.ccls in getattr(f.cls, "base_names", [])):
+                    x = loop.target.id
+                    return frozenset({_mk("is", "%s.%s" % (x, r_.efield.lstrip("_")), "self"), _mk("is", "%s.%s" % (x, r_.efield), "self")})
+            return None
+
         def step_world(n, world, record):
             facts, rel, toks = world
             outs = [(facts, rel, toks)]
@@ -466,8 +483,30 @@ class Pairing:
                                             params.index(spec_c) if spec_c in params else -1, opub))
                         if not ev.ctor:
                             sum_tokens.update(cs["tokens"])
+                        # what the callee does to the back pointer of an argument: facts about it no longer describe the current value;
+                        # when every normal return of the callee leaves it cleared / set, that is a fact from here on
+                        kills, adds = [], set()
+                        if not ev.ctor and len(ev.targets or []) == 1:
+                            for ri2 in {e_[0] for e_ in cs["events"] if e_[1] == "b"}:
+                                bevs = [e_ for e_ in cs["events"] if e_[0] == ri2 and e_[1] == "b"]
+                                bp_ = O2_RELATIONS[ri2].efield
+                                for (_, _, op2, ep2, cp2, _) in bevs:
+                                    if ep2 in amap and amap[ep2] is not None:
+                                        kills.append((norm(amap[ep2]), bp_))
+                                if len(bevs) == 1 and bevs[0][2] in "+-" and cs["rel"] and all(crel[ri2][1] == bevs[0][2] for crel in cs["rel"]):
+                                    op2, ep2, cp2 = bevs[0][2], bevs[0][3], bevs[0][4]
+                                    if ep2 in amap and amap[ep2] is not None:
+                                        val = "None" if op2 == "-" else (norm(amap[cp2]) if cp2 in amap and amap[cp2] is not None else None)
+                                        if val is not None:
+                                            a_ = norm(amap[ep2])
+                                            adds.add(_mk("is", "%s.%s" % (a_, bp_.lstrip("_")), val))
+                                            adds.add(_mk("is", "%s.%s" % (a_, bp_), val))
                         new = set()
                         for (fa, rl, tk) in outs:
+                            for (a_, bp_) in kills:
+                                fa = kill_attr(fa, a_, bp_)
+                            if adds:
+                                fa = fa | frozenset(adds)
                             tk2 = tk | {"K:" + t.qualname}
                             if not ev.ctor:
                                 tk2 = tk2 | frozenset("V:%s:%s" % (t.qualname, w) for w in cs["tokens"])
@@ -503,6 +542,9 @@ class Pairing:
                         for nm in ast.walk(a.target):
                             if isinstance(nm, ast.Name):
                                 fa = kill_name(fa, nm.id)
+                        mem = member_fact(a)
+                        if mem is not None:
+                            fa = fa | mem
                     outs.add((fa, rl, tk))
             outs = frozenset(outs)
             if n.kind in ("test", "assert"):
